@@ -49,6 +49,21 @@ impl<'c, 'r, C: ZCol> Visitor<C> for V<'c, 'r> {
                     return;
                 }
             }
+            // a native target that skips the colours of invisible points in bulk (Iterator::nth) instead
+            // of pulling them one by one must end up with the same pixels
+            if bi < 2 {
+                let mut sk = NativeTarget::<C>::new(*bx);
+                sk.log.budget = budget;
+                sk.log.skip_invisible_with_nth = true;
+                let _ = d.draw_on(&mut sk);
+                if !sk.log.over_budget && !a.log.map.same(&sk.log.map) {
+                    let class = diff_class(&a.log.map, &sk.log.map);
+                    ctx.violation(format!("{}|default-fills-vs-native-fills-skipping-with-nth|{}", kind, class), case, || {
+                        format!("pixel maps differ at {:?} (x, y, draw_iter-only target, native target that skips invisible colours with nth)", a.log.map.first_diff(&sk.log.map))
+                    });
+                }
+                ctx.count("draw_calls_on_skipping_native_target", 1);
+            }
             ctx.count("draw_calls", 2);
             for k in 0..4 {
                 ctx.count(["native_target_draw_iter_calls", "native_target_fill_contiguous_calls", "native_target_fill_solid_calls", "native_target_clear_calls"][k], b.log.calls_by_kind[k]);
